@@ -10,7 +10,7 @@ package bcrypt
 //@   ensures[C10] ghost.authenPass - old(ghost.authenPass) == ghost.cmpOK - old(ghost.cmpOK)
 //@   ensures[C10] ghost.cmpOK == old(ghost.cmpOK) || ghost.cmpOK == old(ghost.cmpOK) + 1
 //@   requires a.loggerProvider != nil
-//@   requires[C14] len(a.hash) == 0 ==> a.getSecret != nil
+//@   requires len(a.hash) == 0 ==> a.getSecret != nil
 
 // Type invariant of a usable bcrypt handler (what Handle requires): a logger, and a keychain
 // whenever no hash is configured. The factory must establish it (C14: a hash-less user must
